@@ -286,6 +286,7 @@ type ProposeCtx struct {
 	// validators touched by operations of this block (avoid double use)
 	used          map[common.ValidatorIndex]bool
 	removed       int
+	forcePreFork  bool         // the next manufactured slashing is dated before the state's last fork epoch
 	evidenceEpoch common.Epoch // override of the epoch the next manufactured attester slashing is dated at
 	Ops           map[string]int
 	// deposits this block must carry (after its own eth1 vote)
@@ -347,11 +348,13 @@ func (p *ProposeCtx) AddProposerSlashing(v common.ValidatorIndex) bool {
 	}
 	p.removed++
 	hslot := p.Slot - common.Slot(c.Rng.Intn(int(min64(uint64(p.Slot), 3))+1))
-	if fe := p.lastForkEpoch(); fe > 0 && p.Epoch <= fe+1 && c.Rng.Chance(60) {
+	if fe := p.lastForkEpoch(); fe > 0 && p.Epoch <= fe+1 && (p.forcePreFork || c.Rng.Chance(60)) {
 		// headers from before the last fork: their domain is the PREVIOUS fork version
 		hslot = common.Slot(fe)*c.Spec.SLOTS_PER_EPOCH - 1 - common.Slot(c.Rng.Intn(int(c.Spec.SLOTS_PER_EPOCH)))
 	}
-	if f := p.Flats[v]; f.WithdrawableEpoch != common.Epoch(FarFuture) && c.Rng.Chance(75) {
+	if f := p.Flats[v]; p.forcePreFork {
+		// keep the pre-fork date
+	} else if f.WithdrawableEpoch != common.Epoch(FarFuture) && c.Rng.Chance(75) {
 		// exit already initiated, still slashable NOW: the double-signed headers are for a slot at/after the withdrawable epoch
 		// (the header slot is free data; only the signature domain looks at its epoch)
 		hslot = common.Slot(f.WithdrawableEpoch+common.Epoch(c.Rng.Intn(3)))*c.Spec.SLOTS_PER_EPOCH + common.Slot(c.Rng.Intn(int(c.Spec.SLOTS_PER_EPOCH)))
@@ -419,7 +422,10 @@ func (p *ProposeCtx) AddAttesterSlashing(vs []common.ValidatorIndex, surround bo
 	if !any {
 		return false
 	}
-	if len(set) == 1 {
+	if fe := p.lastForkEpoch(); p.forcePreFork && fe > 1 {
+		p.evidenceEpoch = fe - 1
+		p.Ops["aslash_pre_fork_target"]++
+	} else if len(set) == 1 {
 		if f := p.Flats[set[0]]; f.WithdrawableEpoch != common.Epoch(FarFuture) && p.slashable(set[0]) && c.Rng.Chance(75) {
 			p.evidenceEpoch = f.WithdrawableEpoch + 1
 			p.Ops["aslash_evidence_epoch_outside_window"]++
@@ -544,7 +550,7 @@ func (p *ProposeCtx) AddExit(v common.ValidatorIndex) bool {
 	if ep > 0 && c.Rng.Chance(30) {
 		ep -= common.Epoch(c.Rng.Intn(int(min64(uint64(ep), 2)) + 1))
 	}
-	if fe := p.lastForkEpoch(); fe > 0 && p.Epoch <= fe+1 && c.Rng.Chance(60) {
+	if fe := p.lastForkEpoch(); fe > 0 && p.Epoch <= fe+1 && (p.forcePreFork || c.Rng.Chance(60)) {
 		ep = fe - 1 // an exit signed for an epoch before the last fork (pre-deneb: domain of the previous version)
 	}
 	if ep < p.lastForkEpoch() {
@@ -554,6 +560,10 @@ func (p *ProposeCtx) AddExit(v common.ValidatorIndex) bool {
 	p.used[v] = true
 	p.Flats[v].ExitEpoch = 0 // marks "exit initiated" for this block's bookkeeping only
 	p.Ops["exit"]++
+	if p.Fork == Deneb && c.Spec.CAPELLA_FORK_EPOCH == c.Spec.DENEB_FORK_EPOCH {
+		// EIP-7044 domain (CAPELLA_FORK_VERSION) in a state whose fork record has epoch == CAPELLA_FORK_EPOCH
+		p.Ops["exit_with_capella_deneb_same_epoch"]++
+	}
 	c.noteExit(v)
 	return true
 }
@@ -1003,11 +1013,14 @@ func (c *Chain) OddDepositor(amount common.Gwei, prefix byte) KeyNum {
 // BadDepositor queues a deposit that process_deposit must skip (the block stays valid, no validator appears):
 // proof of possession by another key / under another domain / unparseable, or an undecodable public key.
 func (c *Chain) BadDepositor() string {
+	return c.BadDepositorKind(pick(c.Rng, "wrong_key", "wrong_domain", "garbage_signature", "bad_pubkey"))
+}
+
+func (c *Chain) BadDepositorKind(kind string) string {
 	k := c.nextStray
 	c.nextStray++
 	g := GenVal{Key: k, WKey: 0, Addr: addrOf(k)}
 	amount := c.Spec.MAX_EFFECTIVE_BALANCE
-	kind := pick(c.Rng, "wrong_key", "wrong_domain", "garbage_signature", "bad_pubkey")
 	var dd common.DepositData
 	switch kind {
 	case "wrong_key":
@@ -1214,6 +1227,9 @@ func (c *Chain) learnValidators() {
 		}
 		c.Vals = append(c.Vals, valInfoOf(g))
 		c.Stats.Inc("validators_added_by_deposit")
+		if c.Spec.ALTAIR_FORK_EPOCH == 0 {
+			c.Stats.Inc("validators_added_by_deposit_with_fork_at_epoch_0")
+		}
 		if c.partialKeys[g.Key] {
 			delete(c.partialKeys, g.Key)
 			c.queueTopUpForKey(g.Key, c.Spec.EFFECTIVE_BALANCE_INCREMENT*3/2)
@@ -1227,6 +1243,10 @@ func (c *Chain) learnValidators() {
 		if c.depForkArmed && i == c.depForkIndex && g.Key == c.depForkKey {
 			// registered at an index where the shared pubkey cache already holds the side branch's key
 			c.Stats.Inc("deposit_fork_conflicting_registration")
+			if c.Vars["depfork_badpop"] == 1 {
+				// the deposit for the side branch's key with a foreign proof of possession came first and registered nobody
+				c.Stats.Inc("deposit_fork_side_key_foreign_pop_skipped")
+			}
 			if br, err := c.St.Balances(); err == nil {
 				if b, err := br.GetBalance(common.ValidatorIndex(i)); err == nil && b > g.Balance {
 					c.Stats.Inc("deposit_fork_topup_credited_after_conflict")
@@ -1316,6 +1336,7 @@ func (c *Chain) Propose(s common.Slot) (bool, error) {
 	if c.Scenario != nil && c.Scenario.BeforeBlock != nil {
 		c.Scenario.BeforeBlock(c, p)
 	}
+	c.jointBoundaryOps(p)
 	c.syncBoundaryOps(p)
 	c.defaultOps(p)
 	c.fillAttestations(p)
@@ -1526,6 +1547,82 @@ func (c *Chain) opsTag(p *ProposeCtx) string {
 		return "ops=-"
 	}
 	return "ops=" + strings.Join(parts, ",")
+}
+
+// jointEpochs: epochs inside the chain at which two or more forks are scheduled together.
+func (c *Chain) jointEpochs() (out []common.Epoch) {
+	fe := []common.Epoch{c.Spec.ALTAIR_FORK_EPOCH, c.Spec.BELLATRIX_FORK_EPOCH, c.Spec.CAPELLA_FORK_EPOCH, c.Spec.DENEB_FORK_EPOCH}
+	for i := 0; i+1 < len(fe); i++ {
+		if fe[i] == fe[i+1] && uint64(fe[i]) < uint64(c.Epochs) && (len(out) == 0 || out[len(out)-1] != fe[i]) {
+			out = append(out, fe[i])
+		}
+	}
+	return
+}
+
+// jointBoundaryOps: the first blocks after a boundary at which several forks start together carry every operation kind whose
+// signature domain depends on a fork version: exit, BLS change, proposer / attester slashing with evidence from before the
+// boundary (attestations for the pre-fork epoch, the sync aggregate of the boundary slot and deposits come from the ordinary
+// producer). The state's fork record then names the LAST of the joint forks and, as previous version, the one before it.
+func (c *Chain) jointBoundaryOps(p *ProposeCtx) {
+	if c.QuietRegistry || c.isSide {
+		return
+	}
+	for _, e := range c.jointEpochs() {
+		key := fmt.Sprintf("joint_blocks_%d", e)
+		if p.Epoch+2 >= e && p.Epoch <= e && c.Vars[key+"_queued"] < 6 {
+			// deposits that become includable around the boundary (the proposers vote for the candidate meanwhile)
+			c.Vars[key+"_queued"]++
+			if c.Vars[key+"_queued"]%2 == 1 {
+				c.NewDepositor(c.Spec.MAX_EFFECTIVE_BALANCE, c.Rng.Bool())
+			} else {
+				c.TopUp(common.ValidatorIndex(c.Rng.Intn(len(c.Vals))), c.Spec.MIN_DEPOSIT_AMOUNT)
+			}
+			c.Stats.Add("deposits_queued", 1)
+			if !c.VoteAlways {
+				c.VoteAlways = true
+				c.Vars["joint_vote_forced"] = 1
+			}
+		}
+		if p.Epoch > e+1 && c.Vars["joint_vote_forced"] == 1 {
+			c.VoteAlways = false
+			c.Vars["joint_vote_forced"] = 0
+		}
+		if p.Epoch < e || p.Epoch > e+1 || c.Vars[key] >= 4 {
+			continue
+		}
+		c.Vars[key]++
+		n := len(p.Flats)
+		try := func(kind string, f func(v common.ValidatorIndex) bool) {
+			if c.Vars[key+"_"+kind] >= 2 {
+				return
+			}
+			for k := 0; k < 40; k++ {
+				if f(common.ValidatorIndex(c.Rng.Intn(n))) {
+					c.Vars[key+"_"+kind]++
+					p.Ops["joint_boundary_"+kind]++
+					return
+				}
+			}
+		}
+		try("exit", p.AddExit)
+		if p.Fork >= Capella {
+			try("blschange", p.AddBLSChange)
+		}
+		p.forcePreFork = true
+		if fe := p.lastForkEpoch(); fe > 0 && p.Epoch <= fe+1 { // (then the forced date is always taken)
+			try("pslash_pre_fork", p.AddProposerSlashing)
+		}
+		if fe := p.lastForkEpoch(); fe > 1 {
+			try("aslash_pre_fork", func(v common.ValidatorIndex) bool {
+				return p.AddAttesterSlashing([]common.ValidatorIndex{v}, false)
+			})
+		}
+		p.forcePreFork = false
+		if len(p.B.Deposits) > 0 {
+			p.Ops["joint_boundary_deposit"]++
+		}
+	}
 }
 
 // syncBoundaryOps: an exit initiated now takes effect at epoch+1+MAX_SEED_LOOKAHEAD; when that is the first epoch of a sync
